@@ -185,6 +185,8 @@ def gen_rule(g, lhs, li, names, nts, terms, domains, labels, max_nodes, max_edge
 def pick_id(g, mode, prefix, i):
     if mode == 'none':
         return None
+    if i == 0 and g.random() < 0.06:
+        return ''           # the empty string is a legal explicit id
     if mode == 'all' or g.random() < 0.5:
         # names whose string order differs from creation order
         return '%s%s%d' % (prefix, g.choice(['', 'z', 'a', '1', '_']), (i * 7 + g.randrange(3)) % 23) + '.' + str(i)
